@@ -17,6 +17,9 @@ KEYS = {
     'Tab': b'\t', 'Enter': b'\r', 'Up': ESC + b'[A', 'Down': ESC + b'[B', 'Right': ESC + b'[C', 'Left': ESC + b'[D',
     'q': b'q', 'CtrlC': b'\x03', 'l': b'l', 'i': b'i', 'h': b'h', 't': b't', 'n': b'n', '-': b'-', '+': b'+',
     'x': b'x',   # unbound key
+    # keys that have no binding at all: further function keys, navigation keys, a control character, a shifted key
+    'F6': ESC + b'[17~', 'F12': ESC + b'[24~', 'Home': ESC + b'[H', 'PgDn': ESC + b'[6~', 'Del': ESC + b'[3~', 'Ins': ESC + b'[2~',
+    'ShiftTab': ESC + b'[Z', 'CtrlL': b'\x0c', 'Q': b'Q', 'Esc': ESC,
 }
 
 
@@ -38,11 +41,11 @@ MOUSE = {
 
 SIZES = [(1, 1), (2, 2), (3, 5), (10, 5), (49, 3), (80, 24), (200, 60)]   # cols x rows
 RESIZE = {'R%dx%d' % s: s for s in SIZES}
-TRAFFIC = ['New', 'Pos', 'Pos2', 'Far', 'Expire', 'Junk']
+TRAFFIC = ['New', 'Pos', 'Pos2', 'Far', 'Expire', 'Junk', 'PosNoAlt']
 JUNK_LINES = b'*;\n;\n*\n\n*zz;\n*00;\n*00000000000000;\n*8d;\n'
 
 SIGMA = (['F1', 'F2', 'F3', 'F4', 'F5', 'Tab', 'l', 'i', 'h', 't', 'n', '-', '+', 'Up', 'Down', 'Left', 'Right',
-          'Enter', 'x'] + list(MOUSE) + list(RESIZE) + TRAFFIC)
+          'Enter', 'x', 'F6', 'F12', 'Home', 'PgDn', 'Del', 'Ins', 'ShiftTab', 'CtrlL', 'Q', 'Esc'] + list(MOUSE) + list(RESIZE) + TRAFFIC)
 QUITS = ['q', 'CtrlC']
 # reduced alphabet for depth 3 (one representative per handler branch)
 SIGMA3 = ['F1', 'F3', 'F4', 'Tab', 'n', '-', 'Up', 'Down', 'Enter', 'ClkAir', 'ClkOut', 'DragC', 'DragFar',
@@ -117,6 +120,10 @@ class Feed:
         add('a1_pos2_0', {'kind': 'pos', 'icao': a1, 'lat': 35.21, 'lon': -80.0, 'alt': 10100, 'odd': 0})
         add('a1_pos2_1', {'kind': 'pos', 'icao': a1, 'lat': 35.21, 'lon': -80.0, 'alt': 10100, 'odd': 1})
         add('a1_far_1', {'kind': 'pos', 'icao': a1, 'lat': 45.0, 'lon': -80.0, 'alt': 30000, 'odd': 1})
+        # position reports that carry no altitude (altitude code 0) / an altitude of exactly 0 ft (Gillham code 0x20a)
+        add('a1_noalt_0', {'kind': 'pos', 'icao': a1, 'lat': 35.2, 'lon': -80.0, 'ac12': 0, 'odd': 0})
+        add('a1_noalt_1', {'kind': 'pos', 'icao': a1, 'lat': 35.2, 'lon': -80.0, 'ac12': 0, 'odd': 1})
+        add('a1_alt0_0', {'kind': 'pos', 'icao': a1, 'lat': 35.2, 'lon': -80.0, 'ac12': 0x20a, 'odd': 0})
         add('a2_ident', {'kind': 'ident', 'icao': a2, 'callsign': 'TWO'})
         add('a3_pos0', {'kind': 'pos', 'icao': a3, 'lat': 34.7, 'lon': -80.4, 'alt': 32000, 'odd': 0})
         add('a3_pos1', {'kind': 'pos', 'icao': a3, 'lat': 34.7, 'lon': -80.4, 'alt': 32000, 'odd': 1})
@@ -203,6 +210,13 @@ def compile_script(feed, tracked, opts, size, delivery, seq, quit_key='q'):
                     keep.append('a1_ident')
             elif letter == 'Far':
                 steps.append({'op': 'lines', 'hex': hexs(feed.l['a1_far_1']), 'n': 1, 'letters': [letter]})
+                if 'a1_ident' not in keep:
+                    keep.append('a1_ident')
+            elif letter == 'PosNoAlt':
+                # a fix whose even report has no altitude, then one whose odd report has none, then 0 ft
+                steps.append({'op': 'lines', 'hex': hexs(feed.l['a1_noalt_0'] + feed.l['a1_pos1'] + feed.l['a1_pos0'] + feed.l['a1_noalt_1']
+                                                         + feed.l['a1_alt0_0'] + feed.l['a1_pos1'] + feed.l['a1_noalt_0']), 'n': 7,
+                              'letters': [letter]})
                 if 'a1_ident' not in keep:
                     keep.append('a1_ident')
             elif letter == 'Junk':
@@ -450,6 +464,11 @@ def enumerate_scripts(tier, feed):
                 for tab in ('F2', 'F3', 'F4', 'F5', 'Tab'):
                     for ck in clicks:
                         add(tr, 'touchscreen', big, dl, [tab, ck])
+        # reports without an altitude, looked at on every tab
+        for tr in ('empty', 'one_pos'):
+            for tab in ('F1', 'F2', 'F3', 'F4', 'F5'):
+                add(tr, 'default', big, 'separated', ['PosNoAlt', tab])
+                add(tr, 'default', big, 'separated', [tab, 'PosNoAlt'])
         # --limit-parsing with the traffic letters (the option changes how feed lines are filtered before decoding)
         for tr in ('empty', 'three_mixed'):
             for seq in ([], ['New'], ['Pos'], ['F3', 'New'], ['Expire'], ['Junk'], ['Junk', 'New']):
